@@ -16,6 +16,14 @@
 //! insertion panics with a message starting `VERIF-MODEL-BOUND`, which the driver classifies as
 //! "undecided" (exit 2), never as a property violation.
 //!
+//! GHOST ENTRIES (`ghost`, default 0): a harness may declare that the cache also holds `ghost`
+//! further entries whose keys differ from every key the harness uses, so that a cache "at its
+//! capacity of 1000" can be stated. They sit in one block in the recency order: the first `above`
+//! slots are more recent than the block, the other slots older (a promoted or new entry moves in
+//! front of the block). They only count in `len()`; an operation that would have to return, evict
+//! or iterate a ghost entry panics with `VERIF-MODEL-BOUND` (undecided). With `ghost == 0` the
+//! behaviour is exactly the one described above.
+//!
 //! /verif/stubs/lru-diff runs random operation sequences against this model and the real
 //! crate (thorough tier).
 #![allow(clippy::all)]
@@ -28,6 +36,10 @@ pub struct LruCache<K, V> {
     pub s0: Option<Box<(K, V)>>,
     pub s1: Option<Box<(K, V)>>,
     pub s2: Option<Box<(K, V)>>,
+    /// number of untracked entries (see the module comment); 0 unless a harness sets it
+    pub ghost: usize,
+    /// how many of the occupied slots (from s0) are more recent than the ghost block
+    pub above: u8,
 }
 
 impl<K, V> core::fmt::Debug for LruCache<K, V> {
@@ -43,6 +55,8 @@ impl<K: Clone, V: Clone> Clone for LruCache<K, V> {
             s0: self.s0.clone(),
             s1: self.s1.clone(),
             s2: self.s2.clone(),
+            ghost: self.ghost,
+            above: self.above,
         }
     }
 }
@@ -62,7 +76,7 @@ fn hit<K: PartialEq, V>(slot: &Option<Box<(K, V)>>, k: &K) -> bool {
 
 impl<K: PartialEq, V> LruCache<K, V> {
     pub fn new(cap: NonZeroUsize) -> Self {
-        LruCache { cap, s0: None, s1: None, s2: None }
+        LruCache { cap, s0: None, s1: None, s2: None, ghost: 0, above: 0 }
     }
 
     pub fn cap(&self) -> NonZeroUsize {
@@ -70,6 +84,10 @@ impl<K: PartialEq, V> LruCache<K, V> {
     }
 
     pub fn len(&self) -> usize {
+        self.slots() + self.ghost
+    }
+
+    fn slots(&self) -> usize {
         if self.s0.is_none() {
             0
         } else if self.s1.is_none() {
@@ -88,8 +106,14 @@ impl<K: PartialEq, V> LruCache<K, V> {
     /// Makes the entry holding `k` (if any) the most recently used one. Returns whether it exists.
     fn promote(&mut self, k: &K) -> bool {
         if hit(&self.s0, k) {
+            if self.above < 1 {
+                self.above = 1;
+            }
             true
         } else if hit(&self.s1, k) {
+            if self.above < 2 {
+                self.above += 1;
+            }
             // (not mem::swap: its chunked byte loop needs an unwinding bound that grows with the entry size)
             let hot = self.s1.take();
             let s0 = self.s0.take();
@@ -97,6 +121,9 @@ impl<K: PartialEq, V> LruCache<K, V> {
             put_into_empty(&mut self.s0, hot);
             true
         } else if hit(&self.s2, k) {
+            if self.above < 3 {
+                self.above += 1;
+            }
             let hot = self.s2.take();
             let s1 = self.s1.take();
             put_into_empty(&mut self.s2, s1);
@@ -152,7 +179,20 @@ impl<K: PartialEq, V> LruCache<K, V> {
         let n = self.len();
         let cap = self.cap.get();
 
-        if n >= cap {
+        if n >= cap && self.ghost > 0 {
+            // at capacity with untracked entries: the least recently used entry must be a tracked one
+            let m = self.slots();
+            if m == 0 || (self.above as usize) >= m {
+                panic!("VERIF-MODEL-BOUND: the lru stand-in would have to evict an untracked entry");
+            }
+            if m == 1 {
+                self.s0 = None;
+            } else if m == 2 {
+                self.s1 = None;
+            } else {
+                self.s2 = None;
+            }
+        } else if n >= cap {
             // at capacity (cap <= 3 here): drop the least recently used entry
             if cap == 1 {
                 self.s0 = None;
@@ -161,9 +201,10 @@ impl<K: PartialEq, V> LruCache<K, V> {
             } else {
                 self.s2 = None;
             }
-        } else if n == 3 {
+        } else if self.slots() == 3 {
             panic!("VERIF-MODEL-BOUND: the lru stand-in holds at most 3 entries");
         }
+        self.above += 1;
 
         // push front; `s2` is empty at this point
         let s1 = self.s1.take();
@@ -171,11 +212,15 @@ impl<K: PartialEq, V> LruCache<K, V> {
         let s0 = self.s0.take();
         put_into_empty(&mut self.s1, s0);
         put_into_empty(&mut self.s0, Some(Box::new((k, v))));
+        self.clamp_above();
 
         None
     }
 
     pub fn pop_lru(&mut self) -> Option<(K, V)> {
+        if self.ghost > 0 && (self.above as usize) >= self.slots() {
+            panic!("VERIF-MODEL-BOUND: the lru stand-in would have to pop an untracked entry");
+        }
         let e = if self.s2.is_some() {
             self.s2.take()
         } else if self.s1.is_some() {
@@ -183,11 +228,20 @@ impl<K: PartialEq, V> LruCache<K, V> {
         } else {
             self.s0.take()
         };
+        self.clamp_above();
         e.map(|b| *b)
+    }
+
+    fn clamp_above(&mut self) {
+        let m = self.slots() as u8;
+        if self.above > m {
+            self.above = m;
+        }
     }
 
     pub fn pop(&mut self, k: &K) -> Option<V> {
         if self.promote(k) {
+            self.above -= 1;
             let hot = self.s0.take();
             self.s0 = self.s1.take();
             self.s1 = self.s2.take();
@@ -201,9 +255,14 @@ impl<K: PartialEq, V> LruCache<K, V> {
         self.s0 = None;
         self.s1 = None;
         self.s2 = None;
+        self.ghost = 0;
+        self.above = 0;
     }
 
     pub fn iter(&self) -> Iter<'_, K, V> {
+        if self.ghost > 0 {
+            panic!("VERIF-MODEL-BOUND: the lru stand-in cannot iterate untracked entries");
+        }
         Iter { a: self.s0.as_deref(), b: self.s1.as_deref(), c: self.s2.as_deref() }
     }
 }
